@@ -49,6 +49,15 @@ inductive ReprTy
   | u8 | u16 | u32 | u64 | usize | i8 | i16 | i32 | i64 | isize
   deriving DecidableEq, Repr
 
+/-- one hint inside `#[repr(..)]` -/
+inductive ReprHint
+  | int (t : ReprTy)
+  | c
+  | align (n : Nat)
+  | packed
+  | other
+  deriving DecidableEq, Repr
+
 structure EnumDef where
   name : Bytes := []
   style : Option CaseStyle := none
@@ -57,8 +66,8 @@ structure EnumDef where
   usePhf : Bool := false
   /-- both `parse_err_ty` and `parse_err_fn` given -/
   customErr : Bool := false
-  /-- `#[repr(int)]` when it is one of the ten integer types -/
-  repr : Option ReprTy := none
+  /-- the `#[repr(..)]` attributes as written: one list of hints per attribute, in source order -/
+  reprAttrs : List (List ReprHint) := []
   constIntoStr : Bool := false
   variants : List Variant := []
   /-- `#[strum_discriminants(name(..))]` -/
@@ -66,6 +75,18 @@ structure EnumDef where
   /-- `#[strum_discriminants(vis(..))]`: 0 = not given, 1 = `pub`, 2 = anything else -/
   discVis : Nat := 0
   deriving Repr
+
+/-- the integer hint in a list of hints, if any (rustc rejects two different ones: E0566) -/
+def intHint : List ReprHint → Option ReprTy
+  | [] => none
+  | .int t :: _ => some t
+  | _ :: hs => intHint hs
+
+/-- all hints of all `#[repr]` attributes: what rustc acts on -/
+def EnumDef.reprHints (d : EnumDef) : List ReprHint := d.reprAttrs.flatten
+
+/-- **rustc**: the discriminant type named by the enum's repr hints, if any -/
+def EnumDef.repr (d : EnumDef) : Option ReprTy := intHint d.reprHints
 
 /-- effective case-insensitivity of a variant: `variant.unwrap_or(enum)` (from_string.rs:116-118) -/
 def EnumDef.ciOf (d : EnumDef) (v : Variant) : Bool :=
